@@ -167,9 +167,56 @@ theorem lr_bool (b : Bool) : parseLR [if b then .kTrue else .kFalse] = parseToks
     rw [semStep_push_red1 _ _ _ _ _ _ _ _ _ r2_of.1 h7]
     simp [semStep_lex_nil, parseToks, pExp, isVal]
 
-/-- scalar expressions: what prints as ONE token -/
+/-! the empty collections `[]` and `{}` (two fixed tokens) -/
+
+theorem run_arr0 : runFuel genTables (fun _ => false) (fuelFor genCert ([tLB, tRB].map tokChar)) (init ([tLB, tRB].map tokChar)) [.push 0] =
+    (.accept, [.lex 1 0, .push 1, .reduce 7 5, .push 5, .reduce 131 13, .push 13, .reduce 137 61, .push 61, .lex 14 93, .push 23,
+      .lex 13 91, .push 0]) := by decide +kernel
+theorem run_map0 : runFuel genTables (fun _ => false) (fuelFor genCert ([tLC, tRC].map tokChar)) (init ([tLC, tRC].map tokChar)) [.push 0] =
+    (.accept, [.lex 1 0, .push 1, .reduce 7 5, .push 5, .reduce 132 14, .push 14, .reduce 141 70, .push 70, .lex 18 125, .push 25,
+      .lex 17 123, .push 0]) := by decide +kernel
+
+theorem kind_131 : semKind 131 = none := by decide +kernel
+theorem kind_132 : semKind 132 = none := by decide +kernel
+theorem kind_137 : semKind 137 = some (some .arrEmpty) := by decide +kernel
+theorem kind_141 : semKind 141 = some (some .mapEmpty) := by decide +kernel
+theorem r2_of' : (genTables.r2.get? (131 : Nat)) = some 1 ∧ (genTables.r2.get? (132 : Nat)) = some 1 ∧
+    (genTables.r2.get? (137 : Nat)) = some 2 ∧ (genTables.r2.get? (141 : Nat)) = some 2 := by decide +kernel
+
+/-- a reduction by a production with two right-hand side symbols -/
+theorem semStep_push_red2 (v1 v2 w x : Val) (vs : List Val) (la : Option Tok) (ts : List Tok) (ok : Bool) (n s : Nat)
+    (hk : genTables.r2.get? (n : Nat) = some 2) (ha : semAct n [v1, v2] = some x) :
+    semStep genTables ⟨v2 :: v1 :: w :: vs, la, ts, some n, ok⟩ (.push s) = ⟨x :: w :: vs, la, ts, none, ok⟩ := by
+  simp [semStep, hk, ha]
+
+theorem lr_arr0 : parseLR [tLB, tRB] = parseToks [tLB, tRB] := by
+  unfold parseLR runSem
+  simp only [run_arr0, List.reverse_cons, List.reverse_nil, List.nil_append, List.cons_append,
+    List.foldl_cons, List.foldl_nil, semStep_push_init, semStep_lex_cons, semStep_push_shift, semStep_reduce]
+  have ha : semAct 137 [.tok tLB, .tok tRB] = some (.exp (.arr [])) := by simp [semAct, kind_137, semApply]
+  rw [semStep_push_red2 _ _ _ _ _ _ _ _ _ _ r2_of'.2.2.1 ha]
+  have hd : semAct 131 [.exp (.arr [])] = some (.exp (.arr [])) := by simp [semAct, kind_131]
+  rw [semStep_push_red1 _ _ _ _ _ _ _ _ _ r2_of'.1 hd]
+  have h7 : semAct 7 [.exp (.arr [])] = some (.result (.arr [])) := by simp [semAct, kind_7, semApply]
+  rw [semStep_push_red1 _ _ _ _ _ _ _ _ _ r2_of.1 h7]
+  simp [semStep_lex_nil, parseToks, pExp, isVal, tLB, tRB]
+
+theorem lr_map0 : parseLR [tLC, tRC] = parseToks [tLC, tRC] := by
+  unfold parseLR runSem
+  simp only [run_map0, List.reverse_cons, List.reverse_nil, List.nil_append, List.cons_append,
+    List.foldl_cons, List.foldl_nil, semStep_push_init, semStep_lex_cons, semStep_push_shift, semStep_reduce]
+  have ha : semAct 141 [.tok tLC, .tok tRC] = some (.exp (.map [])) := by simp [semAct, kind_141, semApply]
+  rw [semStep_push_red2 _ _ _ _ _ _ _ _ _ _ r2_of'.2.2.2 ha]
+  have hd : semAct 132 [.exp (.map [])] = some (.exp (.map [])) := by simp [semAct, kind_132]
+  rw [semStep_push_red1 _ _ _ _ _ _ _ _ _ r2_of'.2.1 hd]
+  have h7 : semAct 7 [.exp (.map [])] = some (.result (.map [])) := by simp [semAct, kind_7, semApply]
+  rw [semStep_push_red1 _ _ _ _ _ _ _ _ _ r2_of.1 h7]
+  simp [semStep_lex_nil, parseToks, pExp, isVal, tLC, tRC]
+
+/-- scalar expressions and empty collections: what prints as one token, `[]` or `{}` -/
 def isScalar : Exp → Bool
   | .null | .nilArr | .bool _ | .int _ | .float _ | .str _ => true
+  | .arr [] | .map [] | .struct [] => true
   | _ => false
 
 /-- on the token list of a printed scalar expression the goyacc parser model and
@@ -186,16 +233,25 @@ theorem lr_agrees_scalar (e : Exp) (hs : isScalar e = true) : parseLR (toks e) =
     · exact lr_float t
     · exact lr_int t
   | str s => exact lr_str _
-  | arr _ => simp [isScalar] at hs
-  | map _ => simp [isScalar] at hs
-  | struct _ => simp [isScalar] at hs
+  | arr l =>
+    cases l with
+    | nil => simpa [toks] using lr_arr0
+    | cons _ _ => simp [isScalar] at hs
+  | map l =>
+    cases l with
+    | nil => simpa [toks] using lr_map0
+    | cons _ _ => simp [isScalar] at hs
+  | struct l =>
+    cases l with
+    | nil => simpa [toks] using lr_map0
+    | cons _ _ => simp [isScalar] at hs
   | ref _ _ _ => simp [isScalar] at hs
 
 theorem isScalar_isVal (e : Exp) (hs : isScalar e = true) : isVal e = true := by
-  cases e <;> simp_all [isScalar, isVal]
+  cases e <;> first | rfl | simp [isScalar] at hs
 
 /-- **format, then the goyacc parser — UNCONDITIONAL for scalar expressions**
-(integers, floats, strings, booleans, null): the LR loop on the regenerated
+(integers, floats, strings, booleans, null, and the empty collections `[]`, `{}`): the LR loop on the regenerated
 tables with the real actions reads the printed text back as the expression, up
 to `norm`. -/
 theorem format_then_goyacc_parse_scalar (e : Exp) (hw : wf e = true) (hs : isScalar e = true) :
